@@ -119,9 +119,29 @@ def se_dump_text(T, opts=None):
 
 
 def build_se(fs, T, name, opts=None):
-    mem_put(name, se_dump_text(T, opts))
-    se = fs.surface_evolver.SurfaceEvolver(name)
-    return se.vertices, se.edges, se.cells
+    """The dump is served from memory through the `open` seam; a real (tmpfs) file with the same
+    content backs it, so that a parser refactored to read the file some other way (pathlib,
+    io.open, pandas) still sees the input instead of silently turning every SE parse into
+    'file not found'."""
+    import os
+    import tempfile
+    text = se_dump_text(T, opts)
+    base = "/dev/shm" if os.path.isdir("/dev/shm") else None
+    d = tempfile.mkdtemp(prefix="verif-se-", dir=base)
+    path = os.path.join(d, name.replace(":", "_") + ".dmp")
+    try:
+        with builtins.open(path, "w") as f:
+            f.write(text)
+        mem_put(path, text)
+        se = fs.surface_evolver.SurfaceEvolver(path)
+        return se.vertices, se.edges, se.cells
+    finally:
+        _MEM.pop(path, None)
+        try:
+            os.unlink(path)
+            os.rmdir(d)
+        except OSError:
+            pass
 
 
 def build_se_file(fs, path):
